@@ -196,7 +196,8 @@ def main(argv=None):
     for sig in sorted(total['viol']):
         entry = kf.get(sig)
         if entry is not None:
-            known_hits[sig] = total['viol_count'][sig]
+            pat = kf.pattern_of(sig)
+            known_hits[pat] = known_hits.get(pat, 0) + total['viol_count'][sig]
             continue
         for w in total['viol'][sig][:1]:
             path = write_replay(prop, w)
